@@ -9,8 +9,12 @@
    whose base name does not start with '.', in store order.
 
    Paths and contents are byte strings ([list N], every element < 256).
-   The SQLite / config parts of a backup (BackupOptions.IncludeMetadata/IncludeConfig) are
-   not modelled: the property is about data files and Iceberg warehouse metadata. *)
+   The optional parts of a backup are modelled too: BackupOptions.IncludeMetadata / IncludeConfig
+   copy the shared SQLite database and arc.toml from the local file system ([lenv]) into the backup
+   (non-fatal on failure; the manifest records HasMetadata / HasConfig), and RestoreOptions
+   RestoreData / RestoreMetadata / RestoreConfig select what RestoreBackup brings back, in that
+   order, stopping at the first step that fails.  The separate Iceberg catalog database
+   (iceberg.catalog_db_path) is not modelled. *)
 From Coq Require Import List ZArith NArith Bool.
 From Arc Require Import Lib.AList.
 Import ListNotations.
@@ -101,7 +105,9 @@ Record manifest := {
   m_total_files : Z;          (* inventoried .parquet files *)
   m_total_size : Z;
   m_skipped : Z;              (* SkippedFiles: non-zero = the backup is incomplete *)
-  m_dbs : list db_info
+  m_dbs : list db_info;
+  m_has_meta : bool;          (* HasMetadata: metadata/arc.db is in the backup *)
+  m_has_cfg : bool            (* HasConfig: config/arc.toml is in the backup *)
 }.
 
 Definition blen (b : bytes) : Z := Z.of_nat (length b).
@@ -127,25 +133,45 @@ Definition inventory (files : list (path * Z)) : list db_info :=
 
 (* ---- stores and fault oracles ------------------------------------------------------------ *)
 (* the backup destination: files (full paths "<id>/data/<orig>") and one manifest per id *)
-Record bstore := { bs_files : tree; bs_manifests : list (bytes * manifest) }.
-Definition empty_bstore : bstore := {| bs_files := []; bs_manifests := [] |}.
+(* ... plus, per id, the optional "<id>/metadata/arc.db" and "<id>/config/arc.toml" *)
+Record bstore := { bs_files : tree; bs_manifests : list (bytes * manifest);
+                   bs_meta : list (bytes * bytes); bs_cfg : list (bytes * bytes) }.
+Definition empty_bstore : bstore := {| bs_files := []; bs_manifests := []; bs_meta := []; bs_cfg := [] |}.
+
+(* the local file system next to the server: the shared SQLite database and arc.toml (None: not
+   configured / no such file) and the ".before-restore" copies a restore leaves behind *)
+Record lenv := { e_sqlite : option bytes; e_config : option bytes;
+                 e_sqlite_prev : option bytes; e_config_prev : option bytes }.
+Definition empty_lenv : lenv := {| e_sqlite := None; e_config := None; e_sqlite_prev := None; e_config_prev := None |}.
+
+Record bopts := { bo_meta : bool; bo_cfg : bool }.                       (* BackupOptions *)
+Record ropts := { ro_data : bool; ro_meta : bool; ro_cfg : bool }.       (* RestoreOptions *)
+Definition all_ropts : ropts := {| ro_data := true; ro_meta := true; ro_cfg := true |}.
 
 Record bfaults := {
   bf_list_src : bool;                 (* ListObjects on the data storage fails *)
   bf_read_src : path -> bool;         (* ReadTo on the data storage fails (file gone / unreadable) *)
   bf_write_bk : path -> bool;         (* WriteReader on the backup storage fails; keyed by the ORIGINAL path *)
-  bf_write_manifest : bool
+  bf_write_manifest : bool;
+  bf_write_meta : bool;               (* writing metadata/arc.db to the backup storage fails *)
+  bf_write_cfg : bool                 (* writing config/arc.toml to the backup storage fails *)
 }.
 Record rfaults := {
   rf_read_manifest : bool;
   rf_list_bk : bool;                  (* List on the backup storage fails *)
   rf_read_bk : path -> bool;          (* ReadTo on the backup storage fails; keyed by the ORIGINAL path *)
-  rf_write_dst : path -> bool         (* WriteReader on the data storage fails *)
+  rf_write_dst : path -> bool;        (* WriteReader on the data storage fails *)
+  rf_read_meta : bool;                (* reading metadata/arc.db from the backup storage fails *)
+  rf_read_cfg : bool;
+  rf_write_sqlite : bool;             (* writing the local SQLite database file fails *)
+  rf_write_config : bool              (* writing the local arc.toml fails *)
 }.
 Definition no_bfaults : bfaults :=
-  {| bf_list_src := false; bf_read_src := fun _ => false; bf_write_bk := fun _ => false; bf_write_manifest := false |}.
+  {| bf_list_src := false; bf_read_src := fun _ => false; bf_write_bk := fun _ => false; bf_write_manifest := false;
+     bf_write_meta := false; bf_write_cfg := false |}.
 Definition no_rfaults : rfaults :=
-  {| rf_read_manifest := false; rf_list_bk := false; rf_read_bk := fun _ => false; rf_write_dst := fun _ => false |}.
+  {| rf_read_manifest := false; rf_list_bk := false; rf_read_bk := fun _ => false; rf_write_dst := fun _ => false;
+     rf_read_meta := false; rf_read_cfg := false; rf_write_sqlite := false; rf_write_config := false |}.
 
 (* ---- CreateBackup ------------------------------------------------------------------------ *)
 Record progress := {
@@ -188,7 +214,15 @@ Definition failed_progress (total processed skipped tbytes pbytes : Z) : progres
   {| pg_completed := false; pg_total_files := total; pg_processed := processed; pg_skipped := skipped;
      pg_total_bytes := tbytes; pg_processed_bytes := pbytes |}.
 
-Definition create_backup (permille : Z) (F : bfaults) (id : bytes) (src : tree) (bk : bstore)
+(* steps 3 and 4 of CreateBackup: an optional part is stored iff it was requested, exists locally
+   and the write to the backup storage succeeds; any failure is only logged *)
+Definition part_stored (requested : bool) (local : option bytes) (write_fails : bool) : option bytes :=
+  if requested then (if write_fails then None else local) else None.
+Definition store_part (id : bytes) (o : option bytes) (l : list (bytes * bytes)) : list (bytes * bytes) :=
+  match o with Some d => pinsert id d l | None => l end.
+Definition is_some {A} (o : option A) : bool := match o with Some _ => true | None => false end.
+
+Definition create_backup (permille : Z) (F : bfaults) (O : bopts) (env : lenv) (id : bytes) (src : tree) (bk : bstore)
   : bresult * progress * bstore :=
   if bf_list_src F then (BFailed, failed_progress 0 0 0 0 0, bk) else
   let pq := parquet_files src in
@@ -199,23 +233,29 @@ Definition create_backup (permille : Z) (F : bfaults) (id : bytes) (src : tree) 
   let ptotal := total_files + Z.of_nat (length ice) in
   let pre := data_prefix id in
   let st0 := {| cs_bk := bs_files bk; cs_processed := 0; cs_bytes := 0; cs_skipped := 0 |} in
-  let fail st := (BFailed, failed_progress ptotal (cs_processed st) (cs_skipped st) total_size (cs_bytes st),
-                  {| bs_files := cs_bk st; bs_manifests := bs_manifests bk |}) in
+  let fail st meta cfg := (BFailed, failed_progress ptotal (cs_processed st) (cs_skipped st) total_size (cs_bytes st),
+                  {| bs_files := cs_bk st; bs_manifests := bs_manifests bk;
+                     bs_meta := store_part id meta (bs_meta bk); bs_cfg := store_part id cfg (bs_cfg bk) |}) in
   match copy_files F pre src pq 0 st0 with
-  | CFatal st => fail st
+  | CFatal st => fail st None None
   | CDone st1 =>
       match (match ice with [] => CDone st1 | _ => copy_files F pre src ice 0 st1 end) with
-      | CFatal st => fail st
+      | CFatal st => fail st None None
       | CDone st2 =>
-          if skip_ratio_exceeded permille (cs_skipped st2) (Z.of_nat (length pq + length ice)) then fail st2
-          else if bf_write_manifest F then fail st2
+          if skip_ratio_exceeded permille (cs_skipped st2) (Z.of_nat (length pq + length ice)) then fail st2 None None
           else
+            let meta := part_stored (bo_meta O) (e_sqlite env) (bf_write_meta F) in
+            let cfg := part_stored (bo_cfg O) (e_config env) (bf_write_cfg F) in
+            if bf_write_manifest F then fail st2 meta cfg
+            else
             let m := {| m_total_files := total_files; m_total_size := total_size;
-                        m_skipped := cs_skipped st2; m_dbs := inventory sized |} in
+                        m_skipped := cs_skipped st2; m_dbs := inventory sized;
+                        m_has_meta := is_some meta; m_has_cfg := is_some cfg |} in
             (BOk m,
              {| pg_completed := true; pg_total_files := ptotal; pg_processed := cs_processed st2;
                 pg_skipped := cs_skipped st2; pg_total_bytes := total_size; pg_processed_bytes := cs_bytes st2 |},
-             {| bs_files := cs_bk st2; bs_manifests := pinsert id m (bs_manifests bk) |})
+             {| bs_files := cs_bk st2; bs_manifests := pinsert id m (bs_manifests bk);
+                bs_meta := store_part id meta (bs_meta bk); bs_cfg := store_part id cfg (bs_cfg bk) |})
       end
   end.
 
@@ -257,27 +297,64 @@ Fixpoint restore_files (R : rfaults) (pre : bytes) (bk : tree) (files : list pat
 
 Inductive rresult := ROk | RFailed.
 
-(* [strict] = true : the current code (/repo 903522c: failures are counted and make the restore fail);
+(* step 2 of RestoreBackup (restoreDataFiles).
+   [strict] = true : the current code (/repo 903522c: failures are counted and make the restore fail);
    [strict] = false: the previous code (a per-file failure was logged and forgotten).
    A fault is "the streaming call for this path fails"; the code makes exactly one ReadTo and one
    WriteReader call per file (no retry), and a failed call leaves the store unchanged, so it does not
    matter to the model whether the call failed before touching the stream or after moving k bytes of
    it, nor whether a second call would have succeeded - the harness injects all of these shapes. *)
-Definition restore_backup (strict : bool) (R : rfaults) (id : bytes) (bk : bstore) (dst : tree)
+Definition restore_data (strict : bool) (R : rfaults) (id : bytes) (bk : bstore) (m : manifest) (dst : tree)
   : rresult * progress * tree :=
+  if rf_list_bk R then (RFailed, failed_progress 0 0 0 0 0, dst) else
+  let pre := data_prefix id in
+  let files := list_prefix pre (bs_files bk) in
+  let st := restore_files R pre (bs_files bk) files
+              {| rs_dst := dst; rs_processed := 0; rs_bytes := 0; rs_failed := 0 |} in
+  let ok := negb (strict && (0 <? rs_failed st)) in
+  ((if ok then ROk else RFailed),
+   {| pg_completed := ok; pg_total_files := Z.of_nat (length files); pg_processed := rs_processed st;
+      pg_skipped := 0; pg_total_bytes := m_total_size m; pg_processed_bytes := rs_bytes st |},
+   rs_dst st).
+
+(* steps 3 and 4 (restoreSQLiteFile / restoreConfig) on one local file: read the part from the
+   backup, keep the current file as ".before-restore", overwrite it.
+   Result: (succeeded or not requested, current file, .before-restore copy) *)
+Definition restore_part (requested has : bool) (read_fails write_fails : bool) (blob cur prev : option bytes)
+  : bool * option bytes * option bytes :=
+  if requested && has then
+    match (if read_fails then None else blob) with
+    | None => (false, cur, prev)
+    | Some d =>
+        let prev' := match cur with Some o => Some o | None => prev end in
+        if write_fails then (false, cur, prev') else (true, Some d, prev')
+    end
+  else (true, cur, prev).
+
+Definition set_failed (p : progress) : progress :=
+  {| pg_completed := false; pg_total_files := pg_total_files p; pg_processed := pg_processed p; pg_skipped := pg_skipped p;
+     pg_total_bytes := pg_total_bytes p; pg_processed_bytes := pg_processed_bytes p |}.
+Definition idle_progress : progress :=
+  {| pg_completed := true; pg_total_files := 0; pg_processed := 0; pg_skipped := 0; pg_total_bytes := 0; pg_processed_bytes := 0 |}.
+
+Definition restore_backup (strict : bool) (R : rfaults) (O : ropts) (id : bytes) (bk : bstore) (dst : tree) (env : lenv)
+  : rresult * progress * tree * lenv :=
   match (if rf_read_manifest R then None else plookup id (bs_manifests bk)) with
-  | None => (RFailed, failed_progress 0 0 0 0 0, dst)
+  | None => (RFailed, failed_progress 0 0 0 0 0, dst, env)
   | Some m =>
-      if rf_list_bk R then (RFailed, failed_progress 0 0 0 0 0, dst) else
-      let pre := data_prefix id in
-      let files := list_prefix pre (bs_files bk) in
-      let st := restore_files R pre (bs_files bk) files
-                  {| rs_dst := dst; rs_processed := 0; rs_bytes := 0; rs_failed := 0 |} in
-      let ok := negb (strict && (0 <? rs_failed st)) in
-      ((if ok then ROk else RFailed),
-       {| pg_completed := ok; pg_total_files := Z.of_nat (length files); pg_processed := rs_processed st;
-          pg_skipped := 0; pg_total_bytes := m_total_size m; pg_processed_bytes := rs_bytes st |},
-       rs_dst st)
+      let '(r1, pg1, dst1) := if ro_data O then restore_data strict R id bk m dst else (ROk, idle_progress, dst) in
+      match r1 with
+      | RFailed => (RFailed, pg1, dst1, env)                   (* returned on the spot: nothing else is restored *)
+      | ROk =>
+          let '(ok2, sq, sqp) := restore_part (ro_meta O) (m_has_meta m) (rf_read_meta R) (rf_write_sqlite R)
+                                   (plookup id (bs_meta bk)) (e_sqlite env) (e_sqlite_prev env) in
+          let env2 := {| e_sqlite := sq; e_config := e_config env; e_sqlite_prev := sqp; e_config_prev := e_config_prev env |} in
+          if negb ok2 then (RFailed, set_failed pg1, dst1, env2) else
+          let '(ok3, cf, cfp) := restore_part (ro_cfg O) (m_has_cfg m) (rf_read_cfg R) (rf_write_config R)
+                                   (plookup id (bs_cfg bk)) (e_config env) (e_config_prev env) in
+          let env3 := {| e_sqlite := sq; e_config := cf; e_sqlite_prev := sqp; e_config_prev := cfp |} in
+          if negb ok3 then (RFailed, set_failed pg1, dst1, env3) else (ROk, pg1, dst1, env3)
+      end
   end.
 
 (* ---- executable correspondence / oracle ------------------------------------------------------ *)
@@ -314,52 +391,71 @@ Record observed := {
   o_manifest : manifest;                (* meaningful when o_backup_ok *)
   o_bprogress : progress;
   o_bk_files : tree;                    (* backup storage, paths relative to "<id>/" stripped of nothing: full "<id>/data/.." paths *)
+  o_bk_meta : option bytes;             (* "<id>/metadata/arc.db" in the backup storage *)
+  o_bk_cfg : option bytes;              (* "<id>/config/arc.toml" *)
   o_restore_ok : bool;
   o_rprogress : progress;
-  o_dst : tree
+  o_dst : tree;
+  o_env : lenv                          (* the local files of the restoring server afterwards *)
 }.
 
 Record ccase := {
   c_permille : Z; c_strict : bool; c_id : bytes; c_src : tree;
   c_list_src : bool; c_read_src : list path; c_write_bk : list path; c_write_manifest : bool;
   c_read_manifest : bool; c_list_bk : bool; c_read_bk : list path; c_write_dst : list path;
+  c_bopts : bopts; c_benv : lenv; c_write_meta : bool; c_write_cfg : bool;
+  c_ropts : ropts; c_renv : lenv; c_read_meta : bool; c_read_cfg : bool; c_write_sqlite : bool; c_write_config : bool;
   c_obs : observed
 }.
 
 Definition case_bfaults (c : ccase) : bfaults :=
   {| bf_list_src := c_list_src c; bf_read_src := in_set (c_read_src c);
-     bf_write_bk := in_set (c_write_bk c); bf_write_manifest := c_write_manifest c |}.
+     bf_write_bk := in_set (c_write_bk c); bf_write_manifest := c_write_manifest c;
+     bf_write_meta := c_write_meta c; bf_write_cfg := c_write_cfg c |}.
 Definition case_rfaults (c : ccase) : rfaults :=
   {| rf_read_manifest := c_read_manifest c; rf_list_bk := c_list_bk c;
-     rf_read_bk := in_set (c_read_bk c); rf_write_dst := in_set (c_write_dst c) |}.
+     rf_read_bk := in_set (c_read_bk c); rf_write_dst := in_set (c_write_dst c);
+     rf_read_meta := c_read_meta c; rf_read_cfg := c_read_cfg c;
+     rf_write_sqlite := c_write_sqlite c; rf_write_config := c_write_config c |}.
 
 Definition manifest_eqb (a b : manifest) : bool :=
   (m_total_files a =? m_total_files b) && (m_total_size a =? m_total_size b) &&
-  (m_skipped a =? m_skipped b) && dbs_equiv (m_dbs a) (m_dbs b).
+  (m_skipped a =? m_skipped b) && dbs_equiv (m_dbs a) (m_dbs b) &&
+  Bool.eqb (m_has_meta a) (m_has_meta b) && Bool.eqb (m_has_cfg a) (m_has_cfg b).
+
+Definition obytes_eqb (a b : option bytes) : bool :=
+  match a, b with Some x, Some y => bytes_eqb x y | None, None => true | _, _ => false end.
+Definition lenv_eqb (a b : lenv) : bool :=
+  obytes_eqb (e_sqlite a) (e_sqlite b) && obytes_eqb (e_config a) (e_config b) &&
+  obytes_eqb (e_sqlite_prev a) (e_sqlite_prev b) && obytes_eqb (e_config_prev a) (e_config_prev b).
 
 (* the model run of a case: backup into an empty backup store, restore into empty storage *)
 Definition case_model (c : ccase) :=
-  let '(br, bp, bk) := create_backup (c_permille c) (case_bfaults c) (c_id c) (c_src c) empty_bstore in
-  let '(rr, rp, dst) := restore_backup (c_strict c) (case_rfaults c) (c_id c) bk [] in
-  (br, bp, bk, rr, rp, dst).
+  let '(br, bp, bk) := create_backup (c_permille c) (case_bfaults c) (c_bopts c) (c_benv c) (c_id c) (c_src c) empty_bstore in
+  let '(rr, rp, dst, env) := restore_backup (c_strict c) (case_rfaults c) (c_ropts c) (c_id c) bk [] (c_renv c) in
+  (br, bp, bk, rr, rp, dst, env).
 
 Definition case_agrees (c : ccase) : bool :=
-  let '(br, bp, bk, rr, rp, dst) := case_model c in
+  let '(br, bp, bk, rr, rp, dst, env) := case_model c in
   let o := c_obs c in
   (match br with
    | BOk m => o_backup_ok o && manifest_eqb m (o_manifest o)
    | BFailed => negb (o_backup_ok o)
    end) &&
   progress_eqb bp (o_bprogress o) && tree_equiv (bs_files bk) (o_bk_files o) &&
+  obytes_eqb (plookup (c_id c) (bs_meta bk)) (o_bk_meta o) && obytes_eqb (plookup (c_id c) (bs_cfg bk)) (o_bk_cfg o) &&
   (match rr with ROk => o_restore_ok o | RFailed => negb (o_restore_ok o) end) &&
-  progress_eqb rp (o_rprogress o) && tree_equiv dst (o_dst o).
+  progress_eqb rp (o_rprogress o) && tree_equiv dst (o_dst o) && lenv_eqb env (o_env o).
 
 (* The property evaluated on the IMPLEMENTATION's observations only (the model is not consulted):
    1 restore reported success  => every file of the observed backup is at its original path
      with its content;
    2 backup succeeded and some inventoried file could not be read => manifest.skipped > 0;
-   3 no fault at all => backup and restore succeed and the destination holds exactly the
-     selected source files. *)
+   3 no fault at all => backup and restore succeed and (when data was requested) the destination
+     holds exactly the selected source files;
+   4 restore reported success => every REQUESTED part the observed backup holds is restored:
+     the data files (when RestoreData), the SQLite database (when RestoreMetadata and the stored
+     manifest says HasMetadata), arc.toml (when RestoreConfig and HasConfig). *)
 Definition obs_backup_files (c : ccase) : tree :=
   let pre := data_prefix (c_id c) in
   flat_map (fun kv => match drop_prefix pre (fst kv) with
@@ -368,6 +464,8 @@ Definition obs_backup_files (c : ccase) : tree :=
 
 Definition no_faults (c : ccase) : bool :=
   negb (c_list_src c) && negb (c_write_manifest c) && negb (c_read_manifest c) && negb (c_list_bk c) &&
+  negb (c_write_meta c) && negb (c_write_cfg c) && negb (c_read_meta c) && negb (c_read_cfg c) &&
+  negb (c_write_sqlite c) && negb (c_write_config c) &&
   match c_read_src c, c_write_bk c, c_read_bk c, c_write_dst c with [], [], [], [] => true | _, _, _, _ => false end.
 
 Definition selected_tree (src : tree) : tree := filter (fun kv => selected (fst kv)) src.
@@ -375,7 +473,13 @@ Definition selected_tree (src : tree) : tree := filter (fun kv => selected (fst 
 (* (written with [if]: vm_compute is call-by-value, [||] would evaluate both sides) *)
 Definition oracle_restore_reports (c : ccase) : bool :=
   let o := c_obs c in
-  if o_restore_ok o then tree_sub (obs_backup_files c) (o_dst o) else true.
+  if o_restore_ok o then
+    (if ro_data (c_ropts c) then tree_sub (obs_backup_files c) (o_dst o) else true) &&
+    (if ro_meta (c_ropts c) && o_backup_ok o && m_has_meta (o_manifest o)
+     then is_some (o_bk_meta o) && obytes_eqb (o_bk_meta o) (e_sqlite (o_env o)) else true) &&
+    (if ro_cfg (c_ropts c) && o_backup_ok o && m_has_cfg (o_manifest o)
+     then is_some (o_bk_cfg o) && obytes_eqb (o_bk_cfg o) (e_config (o_env o)) else true)
+  else true.
 Definition oracle_flags_incomplete (c : ccase) : bool :=
   let o := c_obs c in
   if o_backup_ok o then
@@ -385,7 +489,12 @@ Definition oracle_flags_incomplete (c : ccase) : bool :=
 Definition oracle_roundtrip (c : ccase) : bool :=
   let o := c_obs c in
   if no_faults c then
-    o_backup_ok o && o_restore_ok o && (m_skipped (o_manifest o) =? 0) && tree_equiv (selected_tree (c_src c)) (o_dst o)
+    o_backup_ok o && o_restore_ok o && (m_skipped (o_manifest o) =? 0) &&
+    (if ro_data (c_ropts c) then tree_equiv (selected_tree (c_src c)) (o_dst o) else true) &&
+    (if ro_meta (c_ropts c) && bo_meta (c_bopts c) && is_some (e_sqlite (c_benv c))
+     then obytes_eqb (e_sqlite (c_benv c)) (e_sqlite (o_env o)) else true) &&
+    (if ro_cfg (c_ropts c) && bo_cfg (c_bopts c) && is_some (e_config (c_benv c))
+     then obytes_eqb (e_config (c_benv c)) (e_config (o_env o)) else true)
   else true.
 
 Definition case_oracle (c : ccase) : bool :=
